@@ -105,7 +105,11 @@ Inductive c18case :=
 | KRoiGet (posted got : list span)
 | KPtq (bs : pt) (spans : list span) (pts : list pt) (ans : res (list bool))
 | KMask (bs offset size : pt) (spans : list span) (mask : res (list bool))
-| KVbi (vmin vmax bs : pt) (spans : list span) (ans : res bool).
+| KVbi (vmin vmax bs : pt) (spans : list span) (ans : res bool)
+(* a set of n items stored / streamed at a size next to an internal batch or preallocation size
+   [bound] (read from the Go source): how many came back, the first one that did not (its
+   ordinal), and whether the membership probes on the first and last items answered true *)
+| KBoundary (what : nat) (n bound got : Z) (first_missing : option Z) (probes : bool).
 
 Definition bmap_eqb (m : bmap) (go : list (pt * list rle)) : bool :=
   Nat.eqb (length m) (length go)
@@ -160,6 +164,7 @@ Definition model_ok (c : c18case) : bool :=
   | KPtq bs spans pts ans => res_eqb bools_eqb (point_query bs spans pts) ans
   | KMask bs offset size spans mask => mask_model_ok bs offset size spans mask
   | KVbi vmin vmax bs spans ans => res_eqb Bool.eqb (voxel_bounds_inside vmin vmax bs spans) ans
+  | KBoundary _ n _ got fm probes => true
   end.
 
 (* the number of voxels Add really adds: counted voxel by voxel *)
@@ -291,6 +296,8 @@ Definition spec_class (c : c18case) : nat :=
       | Panic => 17%nat
       end
     else 0%nat
+  | KBoundary _ n bound got fm probes =>
+    if (got =? n) && (match fm with None => true | Some _ => false end) && probes then 0%nat else 19%nat
   end.
 
 Fixpoint classify_from (i : nat) (l : list c18case) : list (nat * nat) :=
